@@ -54,14 +54,16 @@ pub fn o_rollbacks(_input: &[u8], p: &P) -> Out {
 
 pub fn run() {
 	let cx = ctx();
-	cx.note("rule", json!("ALL frame-id sequences of length 0..L over an alphabet of K ids >= -123: contiguous {-123,-122,..} and gapped {-123,-100,0,5,1000,5000}; quick K=4, L<=8 (87,381 sequences per alphabet); thorough K=6, L<=9 (12,093,235 per alphabet); both modes; Frame built directly from public fields. Oracle (naive definition): marked(i) iff an earlier (keep-first) / later (keep-last) row has the same id; mask length == rows; exactly one unmarked row per distinct id. Non-trivial = the sequence has a repeated id; distinct by construction"));
+	cx.note("rule", json!("ALL frame-id sequences of length 0..L over an alphabet of K ids >= -123: contiguous {-123,-122,..} gapped {-123,-100,0,5,1000,5000}, and far-apart {-123, 65413, 65414, 200000} (length <= 5); quick K=4, L<=8 (87,381 sequences per alphabet); thorough K=6, L<=9 (12,093,235 per alphabet); both modes; Frame built directly from public fields. Oracle (naive definition): marked(i) iff an earlier (keep-first) / later (keep-last) row has the same id; mask length == rows; exactly one unmarked row per distinct id. Non-trivial = the sequence has a repeated id; distinct by construction"));
 	cx.note("exhaustive", json!(true));
 	cx.note("assumptions", json!(["ids >= -123 as the property states; sequences longer than L and alphabets larger than K are not enumerated"]));
 	let (k, l) = if cx.quick() { (4usize, 8usize) } else { (6, 9) };
-	let alphabets: Vec<Vec<i32>> = vec![(0..k as i32).map(|i| -123 + i).collect(), [-123, -100, 0, 5, 1000, 5000][..k].to_vec()];
+	// third alphabet: ids more than 65,536 apart (games longer than 18 minutes), kept short
+	let alphabets: Vec<Vec<i32>> = vec![(0..k as i32).map(|i| -123 + i).collect(), [-123, -100, 0, 5, 1000, 5000][..k].to_vec(), vec![-123, 65413, 65414, 200_000][..4.min(k)].to_vec()];
 	// shard on (alphabet, length, first symbol, second symbol)
 	let mut shards = vec![];
 	for (ai, _) in alphabets.iter().enumerate() {
+		let l = if ai == 2 { l.min(5) } else { l };
 		for len in 0..=l {
 			if len < 2 {
 				shards.push((ai, len, 0usize, 0usize));
@@ -78,7 +80,11 @@ pub fn run() {
 	par_each(shards.into_iter(), move |(ai, len, a, b), local| {
 		let al = &alph[ai];
 		let free = if len < 2 { len } else { len - 2 };
+		let k = al.len();
 		let total = if len < 2 { k.pow(len as u32) } else { k.pow(free as u32) };
+		if a >= k || b >= k {
+			return;
+		}
 		let mut ids = vec![0i32; len];
 		for mut idx in 0..total {
 			if len >= 2 {
